@@ -61,8 +61,18 @@ def digest(pest, parser, case):
     return json.dumps(res, sort_keys=True)
 
 
-def make(pest, g, opt):
+_PARSED: dict = {}  # per process: grammar -> (rules, doc), for parsers built with the constructor from ONE shared rule mapping
+
+
+def make(pest, g, opt, shared=False):
     optimizer = None if OPTS[opt] == "none" else M.optimizer_for(pest, OPTS[opt])
+    if shared:
+        from pest.grammar import parse  # noqa: PLC0415
+
+        if g not in _PARSED:
+            _PARSED[g] = parse(GRAMMARS[g], pest.Parser.BUILTIN)
+        rules, doc = _PARSED[g]
+        return pest.Parser(rules, doc, optimizer=optimizer)
     return pest.Parser.from_grammar(GRAMMARS[g], optimizer=optimizer)
 
 
@@ -81,7 +91,7 @@ def run_history_in_child(h):
             live = []
             for ev in h["hist"]:
                 if ev["ev"] == "create":
-                    live.append(make(_pest, ev["g"], ev["opt"]))
+                    live.append(make(_pest, ev["g"], ev["opt"], shared=h.get("shared", False)))
                 elif ev["ev"] == "generate":
                     live.append(M.Generated(live[ev["of"] - 1].generate()))
                 else:
@@ -109,7 +119,8 @@ def run_history_in_child(h):
 
 
 def run_histories(hs):
-    return [run_history_in_child(h) for h in hs]
+    # every history twice: parsers loaded from the text, and parsers built by the constructor from one shared rule mapping
+    return [run_history_in_child(h) for h in hs] + [run_history_in_child({**h, "shared": True}) for h in hs]
 
 
 # ------------------------------------------------------------------------------------ baton scheduler
@@ -324,13 +335,16 @@ def run(tier: str) -> int:
     hs.sort(key=lambda h: json.dumps(h, sort_keys=True))
     chunks = [hs[i : i + 40] for i in range(0, len(hs), 40)]
     for ch, res in zip(chunks, pool.map(run_histories, chunks)):
-        for h, evs in zip(ch, res):
-            desc = " ; ".join(f"{e['ev']}({e.get('g', '')}{',' + e['opt'] if 'opt' in e else ''}{e.get('of', '')}{e.get('on', '')}{',' + e['case'] if 'case' in e else ''})" for e in h["hist"])
+        if len(res) != 2 * len(ch):
+            raise C.MachineryError("history replay returned an unexpected number of results")
+        for j, (h, evs) in enumerate(zip(ch + ch, res)):
+            how = "" if j < len(ch) else "parsers built by Parser(rules, doc, ...) from one shared rule mapping: "
+            desc = how + " ; ".join(f"{e['ev']}({e.get('g', '')}{',' + e['opt'] if 'opt' in e else ''}{e.get('of', '')}{e.get('on', '')}{',' + e['case'] if 'case' in e else ''})" for e in h["hist"])
             for e in evs:
                 events.append({**e, "src": f"history [{desc}]"})
     pool.close()
     pool.join()
-    rep.extra["histories_replayed"] = len(hs)
+    rep.extra["histories_replayed"] = 2 * len(hs)
     rep.sample({"history": hs[len(hs) // 2]["hist"]})
 
     # schedules
